@@ -208,6 +208,17 @@ def _reduce_suffixes(sufs):
     return b_or(*[_suffix_cond(s) for s in sufs])
 
 
+CURRENT_EX = [None]      # the executor whose static defaults fill in for states that have not touched a static yet
+
+
+def _static_default(key):
+    """a static that one path has written and another has not touched still holds its initial value on the latter
+    (locals that are missing on one side are dead there; statics are not)"""
+    if key[0] == 'S' and CURRENT_EX[0] is not None:
+        return CURRENT_EX[0].static_values.get(key[1])
+    return None
+
+
 def merge_arrivals(states):
     """merge states that reach the same unrolled node on mutually exclusive paths"""
     if len(states) == 1:
@@ -228,6 +239,11 @@ def merge_arrivals(states):
             b = store.get(key)
             if a is b:
                 continue
+            if a is None or b is None:
+                d_ = _static_default(key)
+                if d_ is not None:
+                    a = d_ if a is None else a
+                    b = d_ if b is None else b
             try:
                 store[key] = ite(c, a, b)
             except Unsupported as e:
@@ -252,6 +268,11 @@ def merge_states(parts, base_conj=None, exhaustive=False):
             b = store.get(k)
             if a is b:
                 continue
+            if a is None or b is None:
+                d_ = _static_default(k)
+                if d_ is not None:
+                    a = d_ if a is None else a
+                    b = d_ if b is None else b
             try:
                 store[k] = ite(c, a, b)
             except Unsupported as e:
@@ -586,6 +607,7 @@ class Executor:
         self.prune_mode = 'all'      # 'all': every symbolic branch arm; 'forks': only model-requested path splits
         self.int_types = set()       # MIR integer types whose values are kept as exact z3 Ints (integer mode)
         self.static_values = {}     # static name -> value (tables)
+        CURRENT_EX[0] = self
         self.call_depth = 0
         self.max_call_depth = 400
         self.trace = False
@@ -717,11 +739,20 @@ class Executor:
                 if k == 'index':
                     idx = st.store[('L', fr.fid, pr[1])]
                 else:
-                    if pr[3]:
-                        raise Unsupported('from-end constant index')
                     idx = CI(pr[1], 64)
                 nxt = []
                 for g, r, p in cur:
+                    if k == 'cindex' and pr[3]:
+                        # `[-k of n]`: the k-th element from the end of the (sub)slice
+                        if p and p[-1][0] == 'rng':
+                            nxt.append((g, r, p[:-1] + (('i', self.binop('Sub', p[-1][2], CI(pr[1], 64), 'usize')),)))
+                        else:
+                            v_ = self.load(st, r, p)
+                            n_ = len(v_) if isinstance(v_, tuple) else (len(v_.ents) if isinstance(v_, Seq) and v_.dense() else None)
+                            if n_ is None:
+                                raise Unsupported('from-end constant index into a sequence of unknown length')
+                            nxt.append((g, r, p + (('i', CI(n_ - pr[1], 64)),)))
+                        continue
                     if p and p[-1][0] == 'rng':
                         # index into a sub-slice window: add the window start
                         nxt.append((g, r, p[:-1] + (('i', self.binop('Add', idx, p[-1][1], 'usize')),)))
@@ -1747,7 +1778,15 @@ class Executor:
         where = self.where(fr, bb)
         if self.trace:
             print('  ' * self.call_depth + 'call', callee[:150])
-        res = self.call(callee, args, argtypes, dtype, st, where)
+        mind = re.match(r'^(copy|move) (_\d+.*)$', callee) if isinstance(callee, str) else None
+        if mind:
+            # indirect call through a function-pointer / closure value held in a place
+            fv = self.read_place(fr, mirparse.parse_place(mind.group(2)), st)
+            if isinstance(fv, PtrIte) or not isinstance(fv, (FnRef, Closure, Ptr)):
+                raise Unsupported('indirect call through %r' % (fv,))
+            res = self.call_closure(fv, args, st, where)
+        else:
+            res = self.call(callee, args, argtypes, dtype, st, where)
         if res is None:
             return None
         val, st2 = res
@@ -1780,22 +1819,27 @@ class Executor:
         """returns (value, state) or None when the call diverges on every path"""
         ncal = norm_type(callee)
         fn = self.overrides.get(ncal)
-        if fn is None:
-            for rx, f in self.models:
-                if rx.search(ncal):
-                    fn = f
-                    break
-        if fn is not None:
+        # an override is final; otherwise the matching models are tried in priority order until one handles the call
+        cands = [fn] if fn is not None else [f for rx, f in self.models if rx.search(ncal)]
+        for fn in cands:
             ctx = CallCtx(self, st, ncal, argtypes, dtype, where)
             r = fn(ctx, *args)
             if r is DIVERGE:
                 return None
             if r is NOT_HANDLED:
-                pass
-            else:
-                return r, ctx.st
+                continue
+            return r, ctx.st
         it = self.resolve_fn(ncal, argtypes, dtype)
         if it is None:
+            # a tuple-variant / tuple-struct constructor used as a function (`.map(Some)`, `.map(Kind::Pawn)`)
+            try:
+                sv = self.prog.split_variant_path(ncal)
+            except Exception:
+                sv = None
+            if sv:
+                ep, vn = sv
+                i = self.prog.variant_index(ep, vn)
+                return Enum(CI(i, 64), {i: tuple(args)}), st
             raise Unsupported('no model and no MIR for callee %s (at %s)' % (ncal, where))
         if any(rx.search(ncal) for rx in self.nomerge):
             paths = self.run_item_paths(it, args, st)
